@@ -1,6 +1,7 @@
 package c42
 
 import (
+	"bytes"
 	"crypto/sha256"
 	"encoding/hex"
 	"encoding/json"
@@ -128,7 +129,7 @@ func (c *chain) takeSnap(probe *types.Block) snap {
 	for _, a := range c.ethAddrs {
 		addrs = append(addrs, common.Address(a))
 	}
-	addrs = append(addrs, common.Address(c.evmStore), common.Address(c.evmKill), c.neoLive, c.neoDead, ledgerkit.GovAddr)
+	addrs = append(addrs, common.Address(c.evmStore), common.Address(c.evmKill), c.neoLive, c.neoDead, c.neoDel, ledgerkit.GovAddr)
 	for _, a := range addrs {
 		for _, tok := range []common.Address{ledgerkit.OntAddr, ledgerkit.OngAddr} {
 			v, err := l.GetStorageItem(tok, a[:])
@@ -155,6 +156,7 @@ func (c *chain) takeSnap(probe *types.Block) snap {
 	fmt.Fprintf(&acc, "bk:%s", j)
 	s["get:accounts-contracts"] = sha(acc.String())
 	s["global:gas-table"] = gasDigest()
+	s["fresh:cache-reads"] = c.freshReads()
 	if probe != nil {
 		res, err := l.ExecuteBlock(probe)
 		if err != nil {
@@ -187,4 +189,69 @@ func (a snap) diff(b snap) []string {
 	}
 	sort.Strings(out)
 	return out
+}
+
+// freshReads: a fresh CacheDB over a fresh overlay (LedgerStoreImp.GetCacheDB, what every
+// pre-execution and every block execution starts from) must read exactly the persisted state:
+// every ST_STORAGE key of the state LevelDB through Get, the whole ST_STORAGE range through an
+// iterator, every destroyed-contract mark and every contract record. Anything that leaks from an
+// earlier execution into later ones through process-wide state shows up here.
+func (c *chain) freshReads() string {
+	st := c.k.Store()
+	keys, vals := st.VerifC42StateDump()
+	cache := st.GetCacheDB()
+	var bad []string
+	n := 0
+	var want [][2][]byte
+	for i, k := range keys {
+		if len(k) < 2 {
+			continue
+		}
+		switch k[0] {
+		case 5: // ST_STORAGE
+			n++
+			want = append(want, [2][]byte{k[1:], vals[i]})
+			v, err := cache.Get(k[1:])
+			if err != nil || !bytes.Equal(v, vals[i]) {
+				bad = append(bad, "get:"+hex.EncodeToString(k))
+			}
+		case 6: // ST_DESTROYED
+			if len(k) == 21 {
+				n++
+				var a common.Address
+				copy(a[:], k[1:])
+				d, err := cache.IsContractDestroyed(a)
+				if err != nil || !d {
+					bad = append(bad, "destroyed:"+hex.EncodeToString(k))
+				}
+			}
+		case 4: // ST_CONTRACT
+			if len(k) == 21 {
+				n++
+				var a common.Address
+				copy(a[:], k[1:])
+				dc, _, err := cache.GetContract(a)
+				if err != nil || dc == nil {
+					bad = append(bad, "contract:"+hex.EncodeToString(k))
+				}
+			}
+		}
+	}
+	it := st.GetCacheDB().NewIterator(nil)
+	j := 0
+	for ok := it.First(); ok; ok = it.Next() {
+		if j >= len(want) || !bytes.Equal(it.Key(), want[j][0]) || !bytes.Equal(it.Value(), want[j][1]) {
+			bad = append(bad, fmt.Sprintf("iter:%d:%x", j, it.Key()))
+			break
+		}
+		j++
+	}
+	it.Release()
+	if j != len(want) && len(bad) == 0 {
+		bad = append(bad, fmt.Sprintf("iter:listed %d of %d", j, len(want)))
+	}
+	if len(bad) > 4 {
+		bad = append(bad[:4], fmt.Sprintf("... %d more", len(bad)-4))
+	}
+	return fmt.Sprintf("%d reads, mismatches=%v", n, bad)
 }
